@@ -43,6 +43,9 @@ def dec(j):
             return getattr(getattr(importlib.import_module(j['m']), j['c']), j['n'])
         if t == 'class':
             return getattr(importlib.import_module(j['m']), j['c'])
+        if t == 'builtin':
+            import builtins
+            return getattr(builtins, j['n'])
         if t == 'func':
             o = importlib.import_module(j['m'])
             for p in j['q'].split('.'): o = getattr(o, p)
@@ -89,14 +92,17 @@ class _Stub:
             return rec
         raise AttributeError(name)
     # device
-    def set_color(self, color, duration, rapid=False): DEV.append((self, 'set_color', color, duration))
-    def set_power(self, power, duration, rapid=False): DEV.append((self, 'set_power', power, duration))
-    def set_zone_color(self, start, end, color, duration=0, rapid=False, apply=1): DEV.append((self, 'set_zone_color', start, end, color, duration))
-    def fire_and_forget(self, msg, payload, **kw): DEV.append((self, 'set_matrix', payload['colors'], payload['duration']))
-    def get_color(self): DEV.append((self, 'get_color')); return [0, 0, 0, 0]
-    def get_power(self): DEV.append((self, 'get_power')); return 0
-    def set_color_all_lights(self, color, duration, rapid=False): DEV.append((self, 'set_color_all_lights', color, duration))
-    def set_power_all_lights(self, power, duration, rapid=False): DEV.append((self, 'set_power_all_lights', power, duration))
+    def _chk(self, name):
+        exc = self.__dict__.get('_raises', {}).get(name) or self.__dict__.get('_raises', {}).get('*')
+        if exc is not None: raise exc('replay fault')
+    def set_color(self, color, duration, rapid=False): self._chk('set_color'); DEV.append((self, 'set_color', color, duration))
+    def set_power(self, power, duration, rapid=False): self._chk('set_power'); DEV.append((self, 'set_power', power, duration))
+    def set_zone_color(self, start, end, color, duration=0, rapid=False, apply=1): self._chk('set_zone_color'); DEV.append((self, 'set_zone_color', start, end, color, duration))
+    def fire_and_forget(self, msg, payload, **kw): self._chk('fire_and_forget'); DEV.append((self, 'set_matrix', payload['colors'], payload['duration']))
+    def get_color(self): self._chk('get_color'); DEV.append((self, 'get_color')); return [0, 0, 0, 0]
+    def get_power(self): self._chk('get_power'); DEV.append((self, 'get_power')); return 0
+    def set_color_all_lights(self, color, duration, rapid=False): self._chk('set_color_all_lights'); DEV.append((self, 'set_color_all_lights', color, duration))
+    def set_power_all_lights(self, power, duration, rapid=False): self._chk('set_power_all_lights'); DEV.append((self, 'set_power_all_lights', power, duration))
     # clock
     def start(self): CLK.append(('start',))
     def stop(self): CLK.append(('stop',))
@@ -120,7 +126,7 @@ def enc(v, depth=0):
     ids[id(v)] = len(ids) + 1000000
     if isinstance(v, list) and type(v) is list: return {'t': 'list', 'id': ids[id(v)], 'v': [enc(x, depth+1) for x in v]}
     if isinstance(v, dict): return {'t': 'dict', 'id': ids[id(v)], 'v': [[enc(k, depth+1), enc(x, depth+1)] for k, x in v.items()]}
-    if isinstance(v, (set, frozenset)): return {'t': 'set', 'v': [enc(x, depth+1) for x in sorted(v, key=repr)]}
+    if isinstance(v, (set, frozenset)): return {'t': 'set', 'id': ids[id(v)], 'v': [enc(x, depth+1) for x in sorted(v, key=repr)]}
     if depth > 12: return {'t': 'opaque', 'r': repr(v)[:80]}
     if hasattr(v, '__dict__') and not callable(v) and not isinstance(v, type):
         j = {'t': 'obj', 'id': ids[id(v)], 'm': type(v).__module__, 'c': type(v).__name__,
@@ -245,6 +251,8 @@ def encode(I, v, memo):
         return {'t': 'enum', 'm': v.cls.module.name, 'c': v.cls.name, 'n': v.name}
     if isinstance(v, ClassObj):
         return {'t': 'class', 'm': v.module.name, 'c': v.name}
+    if isinstance(v, BuiltinClass):
+        return {'t': 'builtin', 'n': v.name}
     if isinstance(v, FuncObj):
         return {'t': 'func', 'm': v.module.name, 'q': v.qualname}
     if isinstance(v, BoundMethod):
@@ -280,7 +288,7 @@ def encode(I, v, memo):
     if isinstance(v, PyDict):
         return {'t': 'dict', 'id': memo[id(v)], 'v': [[encode(I, k, memo), encode(I, x, memo)] for k, x in v.d.items()]}
     if isinstance(v, PySet):
-        return {'t': 'set', 'v': [encode(I, x, memo) for x in v.s]}
+        return {'t': 'set', 'id': memo[id(v)], 'v': [encode(I, x, memo) for x in v.s]}
     if isinstance(v, PyObj):
         if v.cls.module is None:
             raise NotEncodable('anonymous class')
